@@ -68,12 +68,12 @@ theorem nrm_spaces {st} {b : Buf} (k : Nat) (h : Nrm st b.rev) :
 theorem doIndentNoNl_rev (b : Buf) (s : Style) :
     (b.doIndentNoNl s).rev = (if s = .expanded then List.replicate b.indent 32 else []) ++ b.rev := by
   cases s
-  · simp only [Buf.doIndentNoNl, getIndent]
+  · simp only [Buf.doIndentNoNl, getIndent_expanded]
     by_cases h : b.indent = 0
     · simp [h]
     · have : 0 < b.indent := by omega
       simp [this, addStr_rev]
-  · simp [Buf.doIndentNoNl, getIndent]
+  · simp [Buf.doIndentNoNl, getIndent_compressed]
 
 theorem doIndentNoNl_indent (b : Buf) (s : Style) : (b.doIndentNoNl s).indent = b.indent := by
   unfold Buf.doIndentNoNl; simp only []; split <;> rfl
@@ -202,13 +202,13 @@ theorem endBlock_rev_e (b : Buf) : (b.endBlock .expanded).rev =
       then (List.replicate (b.indent - 2) (32 : UInt8)).reverse ++ 10 :: b.popNl.rev
       else b.popNl.rev) := by
   unfold Buf.endBlock
-  simp only [popSemi_e, popNl_indent, Buf.addOne, Buf.doIndent, getIndent, addStr_rev]
+  simp only [popSemi_e, popNl_indent, Buf.addOne, Buf.doIndent, getIndent_expanded, addStr_rev]
   split <;> simp [addStr_rev]
 
 theorem endBlock_rev_c (b : Buf) : (b.endBlock .compressed).rev =
     125 :: popSemi .compressed b.popNl.rev := by
   unfold Buf.endBlock
-  simp only [popNl_indent, Buf.addOne, Buf.doIndent, getIndent, addStr_rev]
+  simp only [popNl_indent, Buf.addOne, Buf.doIndent, getIndent_compressed, addStr_rev]
   split <;> simp [addStr_rev]
 
 theorem endBlock_indent (b : Buf) (s : Style) : (b.endBlock s).indent = b.indent - 2 := by
